@@ -62,6 +62,13 @@ impl Default for MarkdownFormatter {
     }
 }
 
+/// Text for one table cell: a pipe would end the cell and a line break the row.
+pub(super) fn table_cell(text: &str) -> String {
+    text.replace('|', "\\|")
+        .replace('\n', "\\n")
+        .replace('\r', "\\r")
+}
+
 impl OutputFormatter for MarkdownFormatter {
     fn format(&self, results: &[CheckResult]) -> Result<String> {
         let mut output = String::new();
@@ -109,7 +116,7 @@ impl OutputFormatter for MarkdownFormatter {
             for result in &non_passed {
                 let icon = Self::status_icon(result);
                 let status = Self::status_text(result);
-                let path = self.display_path(result.path());
+                let path = table_cell(&self.display_path(result.path()));
                 // Use raw_stats for display (before skip_comments/skip_blank adjustments)
                 let raw = result.raw_stats();
                 let total = raw.total;
@@ -118,7 +125,7 @@ impl OutputFormatter for MarkdownFormatter {
                 let code = raw.code;
                 let comment = raw.comment;
                 let blank = raw.blank;
-                let reason = result.override_reason().unwrap_or("-");
+                let reason = table_cell(result.override_reason().unwrap_or("-"));
 
                 writeln!(
                     output,
